@@ -191,17 +191,27 @@ namespace
 		size_t r_rows = r->size();
 		size_t r_cols = r->at(0).data<d_array>()->size();
 
-		// Check that array is n x k
-		for (size_t i = 1; i < l_rows; i++) {
-			if (l->at(i).data<d_array>()->size() != l_cols) {
+		// Check that array is n x k of numbers
+		for (size_t i = 0; i < l_rows; i++) {
+			if (!l->at(i).is<t_array>() || l->at(i).data<d_array>()->size() != l_cols) {
 				return std::make_shared<d_array>();
+			}
+			for (auto& element : *l->at(i).data<d_array>()) {
+				if (!element.is<t_scalar>()) {
+					return std::make_shared<d_array>();
+				}
 			}
 		}
 
-		// Check that array is k x m
-		for (size_t i = 1; i < r_rows; i++) {
-			if (r->at(i).data<d_array>()->size() != r_cols) {
+		// Check that array is k x m of numbers
+		for (size_t i = 0; i < r_rows; i++) {
+			if (!r->at(i).is<t_array>() || r->at(i).data<d_array>()->size() != r_cols) {
 				return std::make_shared<d_array>();
+			}
+			for (auto& element : *r->at(i).data<d_array>()) {
+				if (!element.is<t_scalar>()) {
+					return std::make_shared<d_array>();
+				}
 			}
 		}
 
